@@ -21,6 +21,13 @@ CLAIMED["C11"] = (
     "DESIGN.md §2 E-CACHE, §3 C11",
 )
 
+CLAIMED["C02"] = (
+    "ast extraction of protobuf field writes per builder (.create_message) and field reads per factory (.create_from_message) with reaching-definition provenance of the written value and of where each read value ends up, compared against the parsed .proto message definitions",
+    "Decides per message type the field-level round-trip triangle: every proto field of a written message is set by its builder, every field set is read by the paired factory, the value written from attribute a reaches constructor/attribute slot a (no crossing), enums travel by member name through the same proto enum into the same-named Python enum, double fields receive the bare attribute value (no formatting/rounding), optional fields written under a guard are read under HasField, and builders dereference optional attributes only under a None guard. Equality of concrete values after a round trip is not decided.",
+    "Trusts the protobuf runtime, the generated *_pb2 modules matching the .proto files, and annotation-derived domain classes of builder parameters.",
+    "DESIGN.md §3 C02",
+)
+
 CLAIMED["C09"] = (
     "ast pairing analysis of Scenario: id paths reserved per add_objects branch vs released per removal form (single/list), containment guards by syntax-directed dominance, ownership (who may drop / touch _id_set), atomic reservation, counter monotonicity",
     "Per-operation invariant argument that covers every history: each add branch reserves the id paths of the object it stores in one all-or-nothing step before storing; each removal form releases exactly those paths and only under a containment guard; only designated functions drop objects or touch the id pool; replacing the network releases the old ids; the counter only grows and generate_object_id folds in max(_id_set). Decided for all 9 object kinds and 5 removal functions.",
